@@ -63,9 +63,11 @@ def main():
     det = 0
     results = [r for r in results if '_superseded' not in r[2]]
     for name, pid, out in results:
-        v = {p: r for p, r in out.items() if r[0] == 'VIOLATION'}
-        e = {p: r for p, r in out.items() if r[0] == 'ERR'}
-        status = 'DETECTED' if v else ('exit2' if e else 'miss')
+        v = {p: r for p, r in out.items() if p != '_apply' and r[0] == 'VIOLATION'}
+        e = {p: r for p, r in out.items() if p != '_apply' and r[0] == 'ERR'}
+        status = 'NO-APPLY' if '_apply' in out else 'DETECTED' if v else ('exit2' if e else 'miss')
+        if '_apply' in out:
+            v, e = {}, {}
         det += bool(v)
         print(f'{name:10} {status:9} ' + '; '.join(f'{p}: {r[1][0]}' for p, r in v.items()) + (' | ERR ' + '; '.join(f'{p}: {r[1]}' for p, r in e.items()) if e else ''))
     print(f'detected {det}/{len(results)}')
